@@ -4,7 +4,7 @@ import os, re, json, shutil, collections
 import common, polyrun, gen_shapes
 
 SHAPES_COQ = ["Base/FM.v", "Base/Sys.v", "Base/Gens.v", "Poly/PolyOps.v", "Base/Sup.v", "Poly/PolyQuery.v",
-              "Shapes/ExtNum.v", "Shapes/DBM.v", "Shapes/DBMSound.v", "Shapes/DBMExact.v", "Shapes/DBMClosed.v",
+              "Shapes/ExtNum.v", "Shapes/DBM.v", "Shapes/DBMSound.v", "Shapes/DBMExact.v", "Shapes/DBMClosed.v", "Shapes/DBMDisjoint.v",
               "Shapes/Templ.v", "Shapes/ToSys.v", "Shapes/Oct.v", "Shapes/OctBridge.v"]
 
 TRUSTED = [
